@@ -34,9 +34,8 @@ Theorem C11_margins_identity : forall th et (u : R), 0 < th ->
   (margin RNum (clayton th et) [0%nat] 2 [Fin u] = u /\ margin RNum (clayton th et) [1%nat] 2 [Fin u] = u) /\
   (margin RNum (clayton th et) [0%nat] 3 [Fin u] = u /\ margin RNum (clayton th et) [1%nat] 3 [Fin u] = u /\ margin RNum (clayton th et) [2%nat] 3 [Fin u] = u).
 Proof.
-  intros th et u Hth. repeat apply conj;
-    first [ apply indep_margins2 | apply indep_margins3 | apply dep_margins2 | apply dep_margins3
-          | apply clayton_margins2; assumption | apply clayton_margins3; assumption ].
+  intros th et u Hth. split. exact (indep_margins2 u). split. exact (indep_margins3 u). split. exact (dep_margins2 u).
+  split. exact (dep_margins3 u). split. exact (clayton_margins2 th et u Hth). exact (clayton_margins3 th et u Hth).
 Qed.
 
 (* d-increasing: non-negative volume of every rectangle (u1,u2] x ... of (-inf, inf]^d that has at least
